@@ -130,6 +130,7 @@ type ModuleSvcSpec struct {
 
 // RigConfig fixes the in-memory (non-store) configuration of the service keeper for a scenario.
 type RigConfig struct {
+	ResponseOnlyModules []string // modules that registered a response callback but no state callback
 	CallbackModules []string
 	ModuleServices  []ModuleSvcSpec
 }
@@ -151,6 +152,7 @@ type Rig struct {
 }
 
 const ModOther = "othermod" // the "other module" played by the driver
+const ModHalf = "halfmod"   // a module that registered only a response callback
 
 func NewRig(cfg RigConfig) *Rig {
 	r := &Rig{cfg: cfg, keyMap: map[string]storetypes.StoreKey{}}
@@ -216,6 +218,11 @@ func NewRig(cfg RigConfig) *Rig {
 			}
 			rec.log = append(rec.log, c)
 		}); err != nil {
+			panic(err)
+		}
+	}
+	for _, m := range cfg.ResponseOnlyModules {
+		if err := r.sk.RegisterResponseCallback(m, func(ctx sdk.Context, id tmbytes.HexBytes, outs []string, err error) {}); err != nil {
 			panic(err)
 		}
 	}
